@@ -628,7 +628,7 @@ func (m *Model) Solve(inj *Injector) *Wiring {
 			used[e.Direct] = true
 		}
 		if e.Kind == SFunc {
-			w.Funcs[e.Fn.Name] = e.Fn
+			w.Funcs[e.Fn.TraceName()] = e.Fn
 			if e.Fn.Err && !inj.Err {
 				w.Reasons = append(w.Reasons, Reason{"inj-missing-error", k})
 			}
